@@ -81,6 +81,9 @@ func (p *Prover) renderV(ob *Ob, globals []string, withLemmas bool) (string, []s
 	}
 	lib, axioms := p.Lib.slice(atoms)
 	text := "(set-option :produce-models true)\n(set-logic ALL)\n" + lib + lem.String() + body.String() + "(check-sat)\n"
+	if ob.Witness != nil {
+		text += "(get-value (s))\n"
+	}
 	return text, axioms
 }
 
